@@ -144,10 +144,21 @@ func C17_MainLoopForward() {
 		return
 	}
 	fw := <-n.m.worker.MessagesChannel
+	pendingSync := h >= 2 && env.NondetBool("sync_already_waiting_in_worker_slot")
+	if pendingSync {
+		// the sync to h-1 was forwarded while the worker was busy and still sits in its one-slot channel when the
+		// worker dequeues the message: the message is handled (cached) all the same
+		twin.n.m.state.Contexts.CancelOlderThan(state.NewHeightView(h, 0))
+		twin.n.m.worker.workerUpdateStateChannel <- &blockWithProof{block: &stub.Block{H: h - 1}}
+	}
 	twin.n.m.worker.handleRawMessage(fw)
 	if h >= 2 {
 		out := len(twin.n.comm.Out)
-		twin.sync(&stub.Block{H: h - 1})
+		if pendingSync {
+			twin.n.m.worker.handleUpdateState(<-twin.n.m.worker.workerUpdateStateChannel)
+		} else {
+			twin.sync(&stub.Block{H: h - 1})
+		}
 		env.Assert("C17.guaranteed_delivery", len(twin.n.comm.Out) > out) // the cached proposal is answered with a PREPARE
 		env.Reach("C17.main.future")
 	}
